@@ -163,6 +163,16 @@ func (v *Verifier) scanEffects(blocks []*ssa.BasicBlock, e *effects, visiting ma
 						e.all = true
 					}
 				}
+			case *ssa.FieldAddr:
+				// the address of a field that escapes (passed on, stored, returned) may be written
+				// through later under another type's heap key: count its struct as possibly written
+				if addrEscapes(x) {
+					if pt, ok := x.X.Type().Underlying().(*types.Pointer); ok {
+						if root, isAlloc := rootOfAddr(x.X).(*ssa.Alloc); !isAlloc || root.Heap {
+							e.heaps["P:"+TypeKey(pt.Elem())] = true
+						}
+					}
+				}
 			case *ssa.Alloc:
 				if x.Heap {
 					e.allocs = true
@@ -1865,4 +1875,37 @@ func maxElems(elem types.Type) *Term {
 		sz = 1
 	}
 	return IntLit((int64(1) << 47) / sz)
+}
+
+// addrEscapes: the address value is used for anything but loading, storing through it, or taking
+// the address of a sub-component.
+func addrEscapes(v ssa.Value) bool {
+	refs := v.Referrers()
+	if refs == nil {
+		return true
+	}
+	for _, r := range *refs {
+		switch x := r.(type) {
+		case *ssa.DebugRef:
+		case *ssa.UnOp:
+			if x.Op != token.MUL {
+				return true
+			}
+		case *ssa.Store:
+			if x.Val == v {
+				return true
+			}
+		case *ssa.FieldAddr:
+			if addrEscapes(x) {
+				return true
+			}
+		case *ssa.IndexAddr:
+			if x.X != v || addrEscapes(x) {
+				return true
+			}
+		default:
+			return true
+		}
+	}
+	return false
 }
